@@ -8,6 +8,9 @@
 (*              [kind |-> "leaf"]                     (anything else)      *)
 (*              [kind |-> "arith", op, l, r, out]                          *)
 (*              [kind |-> "decider", conds, ov, copy, out]                 *)
+(*              [kind |-> "use", vals]   (an effect that READS values: a   *)
+(*                 memory / latch / property write; never merged, but its   *)
+(*                 operands must follow the replacements)                  *)
 (*            with conds a sequence of [cmp, a, b, ct] (one row = the      *)
 (*            single-condition form) and operands                          *)
 (*              [k |-> "int", v]  |  [k |-> "sig", src, t]  |              *)
@@ -44,7 +47,7 @@ Key(repl, n) == CASE n.kind = "arith" -> <<"arith", n.op, VKey(repl, n.l), VKey(
 SInit(ops) == s_ops = ops /\ s_i = 1 /\ s_cache = <<>> /\ s_repl = <<>> /\ s_kept = <<>>
 Visit == /\ s_i <= Len(s_ops)
          /\ LET n == s_ops[s_i]  key == Key(s_repl, n) IN
-            IF n.kind = "leaf" THEN s_kept' = Append(s_kept, s_i) /\ UNCHANGED <<s_cache, s_repl>>
+            IF n.kind \in {"leaf", "use"} THEN s_kept' = Append(s_kept, s_i) /\ UNCHANGED <<s_cache, s_repl>>
             ELSE IF key \in DOMAIN s_cache
                  THEN s_repl' = (s_i :> s_cache[key]) @@ s_repl /\ UNCHANGED <<s_cache, s_kept>>
                  ELSE s_cache' = (key :> s_i) @@ s_cache /\ s_kept' = Append(s_kept, s_i) /\ UNCHANGED s_repl
@@ -58,10 +61,17 @@ SDone == s_i > Len(s_ops)
 (* is the least j <= i that denotes the same value as i in graph g (computed in one pass, operands refer to earlier nodes).       *)
 (* Node k of a graph may be marked [twin |-> j]: it is the leaf j itself (used to compare two graphs over the same leaves).        *)
 SV(r, v) == CASE v.k = "sig" -> <<"sig", r[v.src], v.t>> [] v.k = "int" -> <<"int", v.v>> [] v.k = "name" -> <<"name", v.v>> [] OTHER -> <<"opaque", v.u>>
+\* "the same value" is semantic, not textual: a + b and b + a, a > b and b < a denote the same (a maintainer may make the pass merge
+\* them); a ^ b (power) and b ^ a, a - b and b - a do not.  An unordered pair is written as the set of its two orientations.
+Commutative == {"+", "*", "AND", "OR", "XOR"}
+Mirror(c) == CASE c = ">" -> "<" [] c = "<" -> ">" [] c = ">=" -> "<=" [] c = "<=" -> ">=" [] OTHER -> c
 SKey(g, r, i) == LET n == g[i] IN
   CASE n.kind = "leaf" -> <<"leaf", IF "twin" \in DOMAIN n THEN n.twin ELSE i>>
-    [] n.kind = "arith" -> <<"arith", n.op, SV(r, n.l), SV(r, n.r), n.out>>
-    [] OTHER -> <<"decider", [j \in DOMAIN n.conds |-> <<n.conds[j].cmp, SV(r, n.conds[j].a), SV(r, n.conds[j].b), n.conds[j].ct>>], SV(r, n.ov), n.out, n.copy>>
+    [] n.kind = "use" -> <<"use", IF "twin" \in DOMAIN n THEN n.twin ELSE i, [j \in DOMAIN n.vals |-> SV(r, n.vals[j])]>>
+    [] n.kind = "arith" -> IF n.op \in Commutative THEN <<"arith", n.op, {<<SV(r, n.l), SV(r, n.r)>>, <<SV(r, n.r), SV(r, n.l)>>}, n.out>>
+                           ELSE <<"arith", n.op, <<SV(r, n.l), SV(r, n.r)>>, n.out>>
+    [] OTHER -> <<"decider", [j \in DOMAIN n.conds |-> <<{<<n.conds[j].cmp, SV(r, n.conds[j].a), SV(r, n.conds[j].b)>>, <<Mirror(n.conds[j].cmp), SV(r, n.conds[j].b), SV(r, n.conds[j].a)>>}, n.conds[j].ct>>],
+                 SV(r, n.ov), n.out, n.copy>>
 RECURSIVE BuildReps(_, _, _)
 BuildReps(g, k, r) == IF k > Len(g) THEN r ELSE
    LET key == SKey(g, r, k)
@@ -73,17 +83,20 @@ RewV(repl, v) == IF v.k = "sig" THEN [v EXCEPT !.src = Canon(repl, v.src)] ELSE 
 Rewired(ops, repl) == [id \in DOMAIN ops |-> LET n == ops[id] IN
    CASE n.kind = "arith" -> [n EXCEPT !.l = RewV(repl, n.l), !.r = RewV(repl, n.r)]
      [] n.kind = "decider" -> [n EXCEPT !.ov = RewV(repl, n.ov), !.conds = [j \in DOMAIN n.conds |-> [n.conds[j] EXCEPT !.a = RewV(repl, n.conds[j].a), !.b = RewV(repl, n.conds[j].b)]]]
+     [] n.kind = "use" -> [n EXCEPT !.vals = [j \in DOMAIN n.vals |-> RewV(repl, n.vals[j])]]
      [] OTHER -> n]
 \* both graphs side by side over the same leaves: node i of `after` becomes node Len(before) + i
 ShiftV(d, v) == IF v.k = "sig" THEN [v EXCEPT !.src = v.src + d] ELSE v
 Shift(d, g) == [id \in DOMAIN g |-> LET n == g[id] IN
    CASE n.kind = "arith" -> [n EXCEPT !.l = ShiftV(d, n.l), !.r = ShiftV(d, n.r)]
      [] n.kind = "decider" -> [n EXCEPT !.ov = ShiftV(d, n.ov), !.conds = [j \in DOMAIN n.conds |-> [n.conds[j] EXCEPT !.a = ShiftV(d, n.conds[j].a), !.b = ShiftV(d, n.conds[j].b)]]]
+     [] n.kind = "use" -> [kind |-> "use", twin |-> id, vals |-> [j \in DOMAIN n.vals |-> ShiftV(d, n.vals[j])]]
      [] OTHER -> [kind |-> "leaf", twin |-> id]]
 SameAcross(before, after, ids) == LET r == Reps(before \o Shift(Len(before), after)) IN \A id \in ids : r[id] = r[Len(before) + id]
 \* operands of the given nodes only point at the given nodes
 Closed(g, ids) == \A id \in ids : LET n == g[id]
-                                        vs == IF n.kind = "arith" THEN {n.l, n.r} ELSE IF n.kind = "decider" THEN {n.ov} \cup UNION {{n.conds[j].a, n.conds[j].b} : j \in DOMAIN n.conds} ELSE {}
+                                        vs == IF n.kind = "arith" THEN {n.l, n.r} ELSE IF n.kind = "decider" THEN {n.ov} \cup UNION {{n.conds[j].a, n.conds[j].b} : j \in DOMAIN n.conds}
+                                              ELSE IF n.kind = "use" THEN Range(n.vals) ELSE {}
                                     IN \A v \in vs : v.k = "sig" => v.src \in ids
 
 \* a node is replaced only by an EARLIER, KEPT node that denotes the same value
@@ -94,6 +107,6 @@ Partition == SDone => /\ Range(s_kept) \cup DOMAIN s_repl = DOMAIN s_ops /\ Rang
 \* rewiring never points at a removed node and does not change what a kept node denotes
 RewireSound == SDone => /\ Closed(Rewired(s_ops, s_repl), Range(s_kept))
                         /\ SameAcross(s_ops, Rewired(s_ops, s_repl), Range(s_kept))
-\* (completeness of the single pass) two kept nodes never denote the same value
-NoDuplicateKept == SDone => LET r == Reps(s_ops) IN \A a \in Range(s_kept) : s_ops[a].kind = "leaf" \/ r[a] = a
+\* (the pass as it is identifies operations textually: it is sound for the semantic notion above, not complete - a + b and b + a are
+\* both kept; no completeness property is claimed)
 =============================================================================
